@@ -17,25 +17,27 @@ from vp.env import install
 from harness import _httpout_rig as rig
 from harness._httpout_rig import CL, CLR, FIN, FL, ST, W, XP
 
-NREQ = 15
-_M = ("GET", "GET", "HEAD", "HEAD", "POST")
+_M = ("GET", "HEAD", "POST")
 
 
 def request_bytes(r):
-    """Concrete request from the pool, by index: method x If-None-Match x version/keep-alive."""
-    m = r % 5
-    v = r // 5
+    """Concrete request from the pool, by index: 0..8 = method x version/keep-alive;
+    9..14 = GET/HEAD with 'If-None-Match: *' on HTTP/1.1, 1.0 keep-alive, 1.0."""
+    if r < 9:
+        m, v, inm = r % 3, r // 3, False
+    else:
+        m, v, inm = (r - 9) % 2, 2 - (r - 9) // 2, True
     method = _M[m]
     lines = [("%s /a HTTP/%s" % (method, "1.1" if v == 2 else "1.0")).encode(), b"Host: x"]
     if v == 1:
         lines.append(b"Connection: keep-alive")
-    if m in (1, 3):
+    if inm:
         lines.append(b"If-None-Match: *")
     body = b""
     if method == "POST":
         lines.append(b"Content-Length: 3")
         body = b"xyz"
-    return method, v, (m in (1, 3)), b"\r\n".join(lines) + b"\r\n\r\n" + body
+    return method, v, inm, b"\r\n".join(lines) + b"\r\n\r\n" + body
 
 
 def model(method, inm, prog):
@@ -76,7 +78,7 @@ def model(method, inm, prog):
 
 
 def pre_resp(req: int, prog: List[Tuple[int, int]]) -> bool:
-    if not (0 <= req < NREQ and len(prog) <= P.N):
+    if not (0 <= req < P.R and len(prog) <= P.N):
         return False
     for kind, a in prog:
         if not (0 <= kind < P.K and 0 <= a <= P.A):
@@ -95,6 +97,9 @@ def check_response(method, ver, inm, prog, wire, closed):
     cl_mismatch = (mo["cl"] is not None and not mo["etag304"] and S not in (204, 304)
                    and mo["cl"] != len(B))
     r1 = resps[0] if resps else None
+    # finish() rejects 204/304 when a write() happened, even of an empty chunk ("its error response
+    # if an operation was rejected"): both the plain response and the error response are allowed
+    wrote_any = any(k == W or (k == FIN and a) for k, a in prog)
 
     def aborted():
         # the request was rejected: nothing, or an incomplete message, then the connection closed
@@ -114,6 +119,8 @@ def check_response(method, ver, inm, prog, wire, closed):
         assert aborted() or is_error_response(), \
             "Content-Length %r but body %r must be rejected: wire=%r closed=%r" % (
                 mo["cl"], B, wire, closed)
+    elif S in (204, 304) and wrote_any and not mo["etag304"] and is_error_response():
+        pass    # write(b"") + 204: tornado answers 500; allowed by the statement
     elif (impossible or cl_mismatch) and method == "HEAD" and (aborted() or is_error_response()):
         pass    # contradictory demands on a HEAD request: either outcome is allowed
     else:
@@ -143,27 +150,29 @@ def check_response(method, ver, inm, prog, wire, closed):
             reached("etag_304")
         if method == "HEAD" and B != b"":
             reached("head_no_body")
-    # ---- exactly one response to the first request; then either closed or the clean answer to
-    # the pipelined second request
+    # ---- exactly one response to the first request; then either closed or (pipelined variant) the
+    # clean answer to the second request
     assert left != "extra", "stray bytes after the response(s): %r" % wire
-    if len(resps) == 2:
-        reached("second_answered")
-        assert rig.is_second_response(resps[1]), "second response damaged: %r" % wire
-    elif left == "truncated" and r1 is not None:
+    if left == "truncated" and r1 is not None:
         raise AssertionError("garbage/partial bytes after the first response: %r" % wire)
-    else:
-        assert closed, "second request unanswered but connection open: %r" % wire
+    if P.second:
+        if len(resps) == 2:
+            reached("second_answered")
+            assert rig.is_second_response(resps[1]), "second response damaged: %r" % wire
+        else:
+            reached("closed_after_first")
+            assert closed, "second request unanswered but connection open: %r" % wire
     if r1 is not None and r1.mode == "close":
         assert closed
 
 
 @harness(
     pre=pre_resp,
-    quick=dict(N=2, K=6, A=3, timeout=100, reach_timeout=60),
-    thorough=dict(N=3, K=7, A=3, timeout=1400, reach_timeout=90),
-    nshards=dict(quick=15, thorough=15),
+    quick=dict(R=11, N=2, K=6, A=2, second=0, timeout=150, reach_timeout=60),
+    thorough=dict(R=15, N=3, K=7, A=2, second=0, timeout=1500, reach_timeout=90),
+    nshards=dict(quick=11, thorough=15),
     reach=["rejected_body_with_204_304", "rejected_cl_mismatch", "chunked", "close_delimited",
-           "etag_304", "head_no_body", "second_answered"],
+           "etag_304", "head_no_body"],
     units=["web.RequestHandler.set_status/set_header/clear_header/write/flush/finish",
            "web.RequestHandler.set_etag_header/check_etag_header/send_error/_execute",
            "web.Application.find_handler / _HandlerDelegate", "http1connection.HTTP1Connection.write_headers",
@@ -180,12 +189,70 @@ def check_response(method, ver, inm, prog, wire, closed):
              "real sockets / partial writes (C12)"],
 )
 def h_resp(req: int, prog: List[Tuple[int, int]]):
+    _body(req, prog)
+
+
+def _body(req, prog, pre=None):
     method, ver, inm, reqb = request_bytes(req)
     with install() as env:
-        app = rig.make_app(prog)
-        st = rig.serve(env, app, reqb + rig.SECOND_REQ)
+        app = rig.make_app(prog, pre_hook=pre)
+        st = rig.serve(env, app, reqb + (rig.SECOND_REQ if P.second else b""))
         wire, closed = st.wire(), st.closed()
     check_response(method, ver, inm, prog, wire, closed)
+
+
+def pre_prestate(req: int, s0: int, prog: List[Tuple[int, int]]) -> bool:
+    if not (0 <= req < P.R and 0 <= s0 <= 2 and len(prog) <= P.N):
+        return False
+    for kind, a in prog:
+        if not (0 <= kind < P.K and 0 <= a <= P.A):
+            return False
+    return in_shard(req)
+
+
+@harness(
+    pre=pre_prestate,
+    quick=dict(R=9, N=2, K=2, A=2, second=0, timeout=100, reach_timeout=60),
+    thorough=dict(R=15, N=3, K=2, A=3, second=0, timeout=900, reach_timeout=90),
+    nshards=dict(quick=9, thorough=15),
+    reach=["streamed_body_with_204_304", "streamed_404"],
+    units=["same as h_resp"],
+    stubs=["same as h_resp; the status (204/304/404) is set by a pre-state set_status() before the program"],
+    outside=["same as h_resp"],
+)
+def h_resp_prestate(req: int, s0: int, prog: List[Tuple[int, int]]):
+    """Deeper write/flush programs from a symbolic pre-state (status already set to 204/304/404):
+    reaches 'status without body + streamed body' within the quick bounds."""
+    sc = rig.STATUS_POOL[s0]
+    full = [(ST, s0)] + list(prog)
+    method, ver, inm, reqb = request_bytes(req)
+    with install() as env:
+        app = rig.make_app(prog, pre_hook=lambda h: h.set_status(sc))
+        st = rig.serve(env, app, reqb)
+        wire, closed = st.wire(), st.closed()
+    mo = model(method, inm, full)
+    if mo["streamed"] and mo["body"] != b"":
+        if sc in (204, 304):
+            reached("streamed_body_with_204_304")
+        else:
+            reached("streamed_404")
+    check_response(method, ver, inm, full, wire, closed)
+
+
+@harness(
+    pre=pre_resp,
+    quick=dict(R=11, N=1, K=6, A=2, second=1, timeout=100, reach_timeout=60),
+    thorough=dict(R=15, N=2, K=6, A=3, second=1, timeout=1400, reach_timeout=90),
+    nshards=dict(quick=11, thorough=15),
+    reach=["second_answered", "closed_after_first"],
+    units=["same as h_resp + HTTP1ServerConnection._server_request_loop second iteration"],
+    stubs=["same as h_resp; a pipelined 'GET /z HTTP/1.1' follows the first request"],
+    outside=["same as h_resp"],
+)
+def h_resp_pipelined(req: int, prog: List[Tuple[int, int]]):
+    """Same oracle with a second pipelined request: the bytes after the first response are either
+    nothing (and the connection is closed) or exactly the canned answer to the second request."""
+    _body(req, prog)
 
 
 TECHNIQUE = ("CrossHair symbolic execution of the real RequestHandler/HTTP1Connection output path driven by a "
